@@ -24,7 +24,7 @@ ANCHOR_FILES = ["src/ropt/config/utils.py", "src/ropt/config/validated_types.py"
 RULE = ("case = one generated dictionary (valid, or valid + one invalidating mutation); non-trivial if validation was attempted and judged; distinct key = case index; "
         "monitor_counters: attributes and arrays attacked, fields compared after re-validation")
 ASSUMPTIONS = ["filter/estimator/sampler index maps are generated at full length (their broadcasting is not part of the statement)"]
-REQUIRED = {"quick": {"attrs_attacked": 20000, "arrays_attacked": 9000, "revalidate_fields_compared": 20000, "rejections_checked": 217, "canonical_checked": 682, "with_relative_perturbations": 144, "with_transform_context": 200, "__nontrivial__": 900},
+REQUIRED = {"quick": {"attrs_attacked": 20000, "arrays_attacked": 9000, "revalidate_fields_compared": 20000, "rejections_checked": 217, "canonical_checked": 682, "with_relative_perturbations": 144, "with_transform_context": 200, "with_negative_objective_weight": 100, "__nontrivial__": 900},
             "thorough": {"attrs_attacked": 500000, "arrays_attacked": 241877, "revalidate_fields_compared": 500000, "rejections_checked": 5977, "canonical_checked": 18022, "with_relative_perturbations": 4147, "with_transform_context": 5000, "__nontrivial__": 24000}}
 N = {"quick": 1500, "thorough": 40000}
 
@@ -61,6 +61,12 @@ def gen_dict(rng):
         if rw.sum() == 0:
             rw[0] = 1.0
     ow = rng.integers(1, 9, size=no).astype(float) * float(rng.choice([1.0, 0.01, 100.0]))
+    if no > 1 and rng.random() < 0.35:
+        # a maximised objective enters with a negative weight; the sum stays positive and the weights still sum to one
+        j = int(rng.integers(no))
+        ow[j] = -0.5 * ow[j]
+        if ow.sum() <= 0.1 * np.abs(ow).sum():
+            ow[j] = -0.1 * abs(ow[j])
     cfg = {"variables": var,
            "realizations": {"weights": rw.tolist()},
            "objectives": {"weights": ow.tolist()}}
@@ -68,6 +74,7 @@ def gen_dict(rng):
     if r < 0.3:
         cfg["realizations"]["realization_min_success"] = int(rng.integers(0, R + 4))
     meta["rw"], meta["ow"] = rw, ow
+    meta["negative_objective_weight"] = bool(np.any(ow < 0))
     grad = {"number_of_perturbations": P}
     if rng.random() < 0.5:
         grad["perturbation_min_success"] = int(rng.integers(1, P + 4))
@@ -295,6 +302,8 @@ def run_case(case, obs):
     cfg = EnOptConfig.model_validate(d, context=make_transforms(tspec) if tspec else None)
     obs.nontrivial(case["i"])
     obs.count("canonical_checked")
+    if meta.get("negative_objective_weight"):
+        obs.count("with_negative_objective_weight")
     # ---- canonical form
     rw, ow = meta["rw"], meta["ow"]
     for name, got, w in (("realizations.weights", cfg.realizations.weights, rw), ("objectives.weights", cfg.objectives.weights, ow)):
